@@ -1,5 +1,13 @@
 #@ Contract clauses for U10 `opt_loop` (consumer obligation of C14).
 #@include ../u1_cell/splices.vs :: trait CellType @ open
+#@include ../u1_cell/splices.vs :: trait CellType > fn wrapping_add @ d3 r
+#@include ../u1_cell/splices.vs :: trait CellType > fn wrapping_add @ sig
+#@include ../u1_cell/splices.vs :: trait CellType > fn wrapping_mul @ d3 r
+#@include ../u1_cell/splices.vs :: trait CellType > fn wrapping_mul @ sig
+#@include ../u1_cell/splices.vs :: trait CellType > fn wrapping_shr @ d3 r
+#@include ../u1_cell/splices.vs :: trait CellType > fn wrapping_shr @ sig
+#@include ../u1_cell/splices.vs :: trait CellType > fn is_odd @ d3 r
+#@include ../u1_cell/splices.vs :: trait CellType > fn is_odd @ sig
 #@include ../u1_cell/splices.vs :: trait CellType > fn wrapping_neg @ d3 r
 #@include ../u1_cell/splices.vs :: trait CellType > fn wrapping_neg @ sig
 #@include ../u1_cell/splices.vs :: trait CellType > fn wrapping_inv @ d3 r
@@ -15,6 +23,79 @@
 @@ struct OptRebuild @ pub
 @@ struct OptRebuild @ close
     pub _rest: PhantomData<&'a C>,
+
+#@ ---------------------------------------------------------------- geometric sum (helper of loop_motion's closed form)
+@@ fn wrapping_geometric_sum @ shape
+while if
+@@ fn wrapping_geometric_sum @ d1 count=count_0
+@@ fn wrapping_geometric_sum @ d3 r
+@@ fn wrapping_geometric_sum @ sig
+        // the sum of the first `count` powers of `mul`, modulo 2^bits
+        ensures r.v() as int == geo(mul.v() as int, count_0.v()) % m_of(C::bits())
+@@ fn wrapping_geometric_sum @ loop 1 before
+        let ghost a = mul.v() as int;
+        let ghost m = m_of(C::bits());
+        let ghost mut pp: nat = 1;    // 2^i: the exponent sq_mul / sq_add stand for
+        let ghost mut rr: nat = 0;    // the low bits of count_0 already consumed
+        proof {
+            C::facts(); lemma_pow2_pos(C::bits());
+            C::v_lt(mul);
+            reveal(pow);
+            assert(pow(a, 1) == a * pow(a, 0));
+            assert(pow(a, 0) == 1);
+            assert(geo(a, 1) == 1 + a * geo(a, 0));
+            assert(geo(a, 0) == 0);
+            lemma_small_mod(mul.v(), pow2(C::bits()));
+            assert(pow2(C::bits()) > 1) by { lemma_pow2_strictly_increases(0, C::bits()); lemma2_to64(); }
+            lemma_small_mod(1, pow2(C::bits()));
+            lemma_small_mod(0, pow2(C::bits()));
+            assert(count_0.v() * 1 == count_0.v());
+        }
+@@ fn wrapping_geometric_sum @ loop 1
+        invariant
+            m == m_of(C::bits()), m > 1, a == mul.v() as int, pp >= 1,
+            sum.v() as int == geo(a, rr) % m,
+            sq_mul.v() as int == pow(a, pp) % m,
+            sq_add.v() as int == geo(a, pp) % m,
+            count_0.v() == count.v() * pp + rr,
+        decreases count.v()
+@@ fn wrapping_geometric_sum @ loop 1 body_start
+            let ghost c0 = count.v();
+            let ghost s0 = sum.v() as int;
+            let ghost p0 = pp;
+            let ghost r0 = rr;
+            proof {
+                C::facts(); lemma2_to64(); C::eq_facts(count, C::ZERO);
+                assert(c0 != 0);
+                lemma_div_decreases(c0 as int, 2);
+            }
+@@ fn wrapping_geometric_sum @ if 1 then_tail
+                proof {
+                    // sum' = (sq_mul * sum + sq_add) mod m  ==  (a^p * geo(r) + geo(p)) mod m == geo(p + r) mod m
+                    lemma_affine_mod(pow(a, p0), geo(a, r0), geo(a, p0), m);
+                    lemma_geo_add(a, p0, r0);
+                    rr = p0 + r0;
+                }
+@@ fn wrapping_geometric_sum @ loop 1 body_end
+            proof {
+                // sq_add' == geo(2p), sq_mul' == a^(2p)
+                lemma_affine_mod(pow(a, p0), geo(a, p0), geo(a, p0), m);
+                lemma_geo_add(a, p0, p0);
+                lemma_mul_mod_noop_general(pow(a, p0), pow(a, p0), m);
+                lemma_pow_adds(a, p0, p0);
+                pp = p0 + p0;
+                assert(pow2(1) == 2) by { lemma2_to64(); }
+                assert(count.v() == c0 / 2);
+                assert(c0 == 2 * (c0 / 2) + c0 % 2) by { lemma_fundamental_div_mod(c0 as int, 2); }
+                assert(count_0.v() == count.v() * pp + rr) by (nonlinear_arith)
+                    requires count_0.v() == c0 * p0 + r0, pp == p0 + p0, c0 == 2 * count.v() + c0 % 2,
+                             (c0 % 2 == 1 ==> rr == p0 + r0), (c0 % 2 == 0 ==> rr == r0), c0 % 2 == 0 || c0 % 2 == 1;
+            }
+@@ fn wrapping_geometric_sum @ loop 1 after
+        proof {
+            C::eq_facts(count, C::ZERO); C::facts();
+            assert(count.v() * pp == 0) by (nonlinear_arith) requires count.v() == 0;
+        }
 
 #@ ---------------------------------------------------------------- OptLoop constructors
 @@ impl<C: CellType> OptLoop<C> > fn expr @ d3 r
